@@ -180,6 +180,8 @@ use simple_mermaid::mermaid;
 mod macros;
 mod region_local;
 mod region_local_ext;
+#[cfg(folo_verif)]
+pub mod verif_hook;
 
 pub use region_local::*;
 pub use region_local_ext::*;
